@@ -5,7 +5,7 @@ CONSTANTS
 VIEW View
 INVARIANT BoundsInv
 PROPERTIES RefusedUnchanged AddAppends AddFailsIffNoSpace ConsumeOldestInOrder ConsumeFailsIffTooFew
-  AtMostReturnsWhatIsThere RewindKeepsUnread EmptyingOps SetRefusesMalformed RefinesAbs
+  AtMostReturnsWhatIsThere RewindKeepsUnread EmptyingOps SetRefusesMalformed HugeRefused RefinesAbs
 CONSTRAINT EmitInit
 ACTION_CONSTRAINT EmitAll
 CHECK_DEADLOCK FALSE
